@@ -25,6 +25,7 @@ RULE = (
     "equal refcodec.decode(fixture) on every field the file specifies; structure-preserving edits of fixtures (unknown chunk at a position - "
     "thorough: every position x 3 payloads; dropped optional chunk; truncated CVAL list; permuted header chunks) must load to the same / the "
     "documented-default snapshot. non-trivial = file with an unknown chunk, a dropped optional chunk, a truncated CVAL list or an interior empty position"
+    ' Also (added while the seeded-change rounds of DESIGN section 9 ran): Also: nested containers of another version era than the file (inner_vers), loading from str / Path / offset streams / mmap / unbuffered files / quiet-seek streams, and every fixture decoded in freshly started interpreters (-O, -OO, -W error, -X dev, C locale, other first imports, logging opened before import).'
 )
 ASSUMPTIONS = list(refcodec.TRUSTED_BASE) + [
     "descriptions are plain data; only their generation reuses the recipe strategies, the bytes the reader sees come from the independent encoder",
